@@ -99,8 +99,7 @@ def roundtrip_variants(g, rng, tmpdir):
     """yields (variant name, loaded graph or exception)"""
     for fmt in ("yaml", "json"):
         for simp in (True, False):
-            text = demes.dumps(g, format=fmt, simplified=simp)
-            yield (f"dumps/loads {fmt} simplified={simp}", lambda: demes.loads(text, format=fmt))
+            yield (f"dumps/loads {fmt} simplified={simp}", lambda fmt=fmt, simp=simp: demes.loads(demes.dumps(g, format=fmt, simplified=simp), format=fmt))
             how = rng.choice(["strpath", "pathlib", "stream"])
             if how == "stream":
                 def via_stream(fmt=fmt, simp=simp):
@@ -116,8 +115,9 @@ def roundtrip_variants(g, rng, tmpdir):
                     demes.dump(g, pp, format=fmt, simplified=simp)
                     return demes.load(pp, format=fmt)
                 yield (f"dump/load {how} {fmt} simplified={simp}", via_path)
-    jt = demes.dumps(g, format="json", simplified=rng.random() < 0.5)
-    yield ("json text through the yaml loader", lambda: demes.loads(jt, format="yaml"))
+    simp_j = rng.random() < 0.5
+    # (dumped inside the variant: a dump that raises on a valid graph is a failed round trip, not a harness error)
+    yield ("json text through the yaml loader", lambda: demes.loads(demes.dumps(g, format="json", simplified=simp_j), format="yaml"))
 
 
 def same_graph(a, b):
@@ -137,7 +137,7 @@ def check_graph(ctx, g, doc, kind, tmpdir, known=None):
             if not same_graph(g2.asdict(), a):
                 why = "loads back as a different graph"
         except Exception as e:  # noqa: BLE001
-            why = f"fails to load back ({type(e).__name__})"
+            why = f"fails to dump or to load back ({type(e).__name__})"
         if why:
             what = f"{name}: {why}"
             if known == "F13" and "yaml" in name and "json text" not in name:
@@ -187,7 +187,7 @@ def string_sweep(ctx):
                 try:
                     why = None if same_graph(fn().asdict(), a) else "loads back as a different graph"
                 except Exception as e:  # noqa: BLE001
-                    why = f"fails to load back ({type(e).__name__})"
+                    why = f"fails to dump or to load back ({type(e).__name__})"
                 if why:
                     ctx.violation(f"{name}: {why}", {"document": show(canon_doc(d)), "variant": name})
 
